@@ -22,6 +22,17 @@ SETS = [['PartialEq'], ['PartialEq', 'Eq'], ['PartialEq', 'PartialOrd'], ['Ord',
 REV = {'L': 'G', 'G': 'L', 'E': 'E', 'N': 'N'}
 
 
+_REF = 'pub fn need<T: Eq>() {}\npub fn run() { need::<%s>(); }'
+MUST_BE_REFUSED = [
+    ('#[derive_ex(Eq, PartialEq)] struct X<T>(#[derive_ex(Eq(bound(T: PartialEq)))] T);   [then `X<P>: Eq` with P(9) != P(9)]',
+     '#[::derive_ex::derive_ex(Eq, PartialEq)]\npub struct X<T>(#[derive_ex(Eq(bound(T: PartialEq)))] pub T);\n' + _REF % 'X<P>'),
+    ('#[derive(Ex)] #[derive_ex(Eq, PartialEq)] enum E<T> { A { #[derive_ex(Eq(bound(T: PartialEq)))] a: T }, B }',
+     '#[derive(::derive_ex::Ex)]\n#[derive_ex(Eq, PartialEq)]\npub enum E<T> { A { #[derive_ex(Eq(bound(T: PartialEq)))] a: T }, B }\n' + _REF % 'E<P>'),
+    ('#[derive_ex(Eq, PartialEq, Hash)] struct X<T>(u8, #[derive_ex(Eq(bound()), Hash)] T);',
+     '#[::derive_ex::derive_ex(Eq, PartialEq, Hash)]\npub struct X<T>(pub u8, #[derive_ex(Eq(bound()), Hash)] pub T);\n' + _REF % 'X<P>'),
+]
+
+
 class C02(CmpProp):
     pid = 'C02'
     batch = 'c02'
@@ -159,7 +170,23 @@ class C02(CmpProp):
                     samples.append(dict(input=r.input_text()[:400], laws_checked_on_pairs=n * n))
         for name, _ in batches:
             l2.cleanup(name)
-        return dict(evaluations=len(mods) + refused, validated=validated + refused, programs=len(mods), pair_checks=checks,
+        # generic items whose explicit bounds do not imply `Eq` for a compared field: `Eq` must be refused (an `X<NaN-like>` that
+        # is `Eq` breaks reflexivity of `==`); hand-written, compiled against the real macro
+        class _Lit:
+            def __init__(self, text):
+                self.text, self.meta = text, dict(nontrivial=True)
+            def input_text(self):
+                return self.text
+        lits = [l2.Module(8 * 10 ** 6 + k, src, _Lit(text)) for k, (text, src) in enumerate(MUST_BE_REFUSED)]
+        l2.compile_parallel([('c02lit', lits)], prelude=G.PRELUDE + G.P_TYPE, check_only=True)
+        for mo in lits:
+            if mo.compiled:
+                failures.append(dict(**{'class': 'eq-accepted-without-eq-component', 'mode': 'generic'}, input=mo.meta.input_text(),
+                                     expected='refused at compile time: `X<P>` would be `Eq` although `P(9) != P(9)`', observed='compiles'))
+            else:
+                validated += 1
+        l2.cleanup('c02lit')
+        return dict(evaluations=len(mods) + refused + len(lits), validated=validated + refused, programs=len(mods) + len(lits), pair_checks=checks,
                     refused_by_derive_ex=refused, failures=failures, samples=samples)
 
 
